@@ -199,6 +199,47 @@ def audit(prop: str, prop_modules: list[str]) -> dict:
             "build_log_tail": out[-3000:] if not ok else ""}
 
 
+def leanchecker(prop_modules: list[str], timeout=3000) -> dict:
+    """Independent re-check of the compiled property modules (and everything
+    they import) with the toolchain's `leanchecker`."""
+    t0 = time.time()
+    try:
+        with Lock("build"):
+            p = subprocess.run(["lake", "env", "leanchecker"] + prop_modules, cwd=LEAN,
+                               capture_output=True, text=True, timeout=timeout)
+    except subprocess.TimeoutExpired:
+        return {"ok": False, "error": "leanchecker timed out", "wall_s": round(time.time() - t0, 1)}
+    out = (p.stdout + p.stderr)[-2000:]
+    return {"ok": p.returncode == 0, "exit": p.returncode, "wall_s": round(time.time() - t0, 1),
+            "modules": prop_modules, "tail": out if p.returncode != 0 else out[-300:]}
+
+
+def replay(mod, path: str) -> int:
+    """Re-run what a replay file records against the current tree: scenario lines
+    through the real node and the property's oracle; otherwise the whole quick check."""
+    data = json.load(open(path))
+    bad = 0
+    ran = 0
+    for v in data.get("violations", []):
+        d = v.get("detail", {})
+        f = d.get("found", d)
+        line = f.get("line") if isinstance(f, dict) else None
+        if line and line.startswith("NODE ") and hasattr(mod, "oracle"):
+            import nodecheck
+            r = nodecheck.run_real(line)
+            fs = mod.oracle(line, nodecheck.Obs(r)) or []
+            ran += 1
+            print(f"replay: {line[:160]}…  ->  {'FAILS: ' + fs[0]['what'] if fs else 'holds'}")
+            bad += 1 if fs else 0
+    if ran:
+        if bad:
+            print(f"VIOLATION property={data.get('property')} replay={path}")
+        return 1 if bad else 0
+    print("replay: no scenario line recorded; re-running the quick check")
+    p = subprocess.run([os.path.join(VERIF, "check"), data.get("property", "")])
+    return p.returncode
+
+
 _driver_built = False
 
 
